@@ -13,6 +13,7 @@ from concurrent.futures import ThreadPoolExecutor
 
 from harness.common import REPO, exc_class
 from harness import c19_extra
+from harness import c19_spec
 
 
 def codes(s):
@@ -247,6 +248,10 @@ def _run(ctx, tmp, rng, click, pkg_resources, qc, app):
     # ------------------------------------------------------------------ C. run / run-ftp / merge == API
     from click.testing import CliRunner
     runner = CliRunner()
+    # malformed-specification stream decided by grammar model + literal grammar + API constructor (c19_spec)
+    spec_procs = c19_spec.spec_stream(ctx, rng, qc, click, runner, groups, allreg, table)
+    # integer option values at the edge of exact representation, CLI == API for the denoted integer (c19_spec)
+    edge_procs = c19_spec.option_edges(ctx, rng, qc, app, runner, lambda t: real.convert(t, None, None))
     cases = []
     run_specs = [('five_qubit', 'generic.depolarizing', 'generic.naive'), ('steane', 'generic.phase_flip', 'generic.naive'),
                  ('planar(3,3)', 'generic.bit_flip', 'planar.mwpm'), ('toric(3,3)', 'generic.bit_flip', 'toric.mwpm'),
@@ -362,6 +367,7 @@ def _run(ctx, tmp, rng, click, pkg_resources, qc, app):
            (['merge', 'nonexistent.json'], 'merge-missing-file')]
     for ev in evil:
         bad.append((['run', ev, 'generic.depolarizing', 'planar.mwpm', '0.1'], 'code-like'))
+    bad += spec_procs
     json.dump(outputs[0] if outputs else [], open(os.path.join(tmp, 'in1.json'), 'w'))
     for nm in ('existing.json', 'existing2.json', 'existing3.json'):
         open(os.path.join(tmp, nm), 'w').write('PRECIOUS ' + nm)
@@ -372,6 +378,7 @@ def _run(ctx, tmp, rng, click, pkg_resources, qc, app):
     with ThreadPoolExecutor(max_workers=16) as ex:
         jres = list(ex.map(lambda j: run_cli(j[1], tmp), jobs))
         bres = list(ex.map(lambda b: run_cli(b[0], tmp), bad))
+        eres = list(ex.map(lambda b: run_cli(b[0], tmp), edge_procs))
     mreq, mexp = [], []
     for (kind, args, fname), (rc, so, se) in zip(jobs, jres):
         ctx.count(('proc', kind), fname is not None, 'output-' + kind, {'kind': kind, 'args': args, 'exit': rc})
@@ -408,6 +415,15 @@ def _run(ctx, tmp, rng, click, pkg_resources, qc, app):
             ctx.violation('usage-error', 'malformed arguments do not end in a usage error (exit 2, Usage:, no traceback)', rep)
         if any(l.startswith('[{') for l in so.split('\n')):
             ctx.violation('simulated-invalid', 'a simulation ran with invalid parameters', rep)
+    for (args, want), (rc, so, se) in zip(edge_procs, eres):
+        ctx.count(('proc-edge', tuple(args)), True, 'cli-proc-option-edge')
+        try:
+            got = strip_wall(json.loads([l for l in so.split('\n') if l.startswith('[')][-1]))
+        except Exception:  # noqa
+            got = 'exit=%s stderr=%s' % (rc, se[-300:])
+        if rc != 0 or got != want:
+            ctx.violation('cli-vs-api', 'CLI process output differs field-for-field from the API result for the same '
+                          'option values', {'args': args, 'exit': rc, 'cli': got, 'api': want})
     if os.path.exists(sentinel):
         ctx.violation('code-evaluated', 'argument text was evaluated as code (sentinel file created)', {'specs': evil})
 
